@@ -14,6 +14,8 @@ package main
 //	                  referrers; self references and longer cycles terminate since fix bda5470); registered FIRST, so the
 //	                  cascade runs before the entity's own index entries are removed
 //	  groups []string link collection A.groups <-> B.members
+//	  peers           link collection of A WITH ITSELF through one symbol (AddLinkCollection(peers, peers)); Add/Remove/SetLinks
+//	  mentors         link collection of A with itself through two symbols  A.mentors <-> A.mentees; SetLinks
 //	  rcB             ref-counted link collection A.rcB <-> B.rcA (IncrementLinkCount / DecrementLinkCount / SetLinkCount)
 //	store A1: plain child of A (entity path ["ext1"]): code string, own unique index (non-nullable),
 //	          pals []string link collection OWNED BY THE CHILD STORE  A1.pals <-> B.palsOf
@@ -21,7 +23,11 @@ package main
 //	          updates (parent fields + colour under one checker) and deletes through it.  Its processDeleteConstraints
 //	          round runs for every parent entity (FindById of an extended store falls back to the parent's bucket).
 //
-// Case line:   h <vals> <tx>|<tx>|...        (same framing as C03)
+// Case line:   h <vals> <tx>|<tx>|...        (same framing as C03)   or   h1 <vals> <tx>|...
+//
+//	h : every field's symbol name = stored key = name in the caller's FieldChecker
+//	h1: the naming variant  name: symbol "title", key "nm", checker name "displayName" (AddSymbolWithKey + WithFieldOverrides);
+//	    alias: symbol "nick", key "aka", checker name "alias"; roles: checker name "roleAttributes"; colour (A2): checker name "tint"
 //
 //	ca:<id>:<name>:<alias>:<roles>:<owner>:<dep>:<groups>[:<boss>]       A.Create
 //	ua:<id>:<name>:<alias>:<roles>:<owner>:<dep>:<groups>:<chk>[:<boss>] A.Update, <chk> = * | subset of "narodgb" | 0
@@ -32,6 +38,8 @@ package main
 //	d2:<id>                                                                        A2.DeleteById (delegates to the parent)
 //	(the trailing <boss> is optional: absent = nil)
 //	ri:<a>:<b>  rd:<a>:<b>  rs:<a>:<b>:<n>                      Increment / Decrement / SetLinkCount on A.rcB
+//	pa:<id>:<keys>  pr:<id>:<keys>  ps:<id>:<keys>              AddLinks / RemoveLinks / SetLinks on A.peers
+//	ms:<id>:<keys>                                              SetLinks on A.mentors
 //	dc:<id>                                                     A1.DeleteById (delegates to the parent)
 //	cb:<id>:<label>      ub:<id>:<label>:<chk> (* | l | 0)      db:<id>         B.Create / Update / DeleteById
 //
@@ -71,22 +79,48 @@ func (e *c06Thing) GetId() string         { return e.Id }
 func (e *c06Thing) SetId(id string)       { e.Id = id }
 func (e *c06Thing) GetEntityType() string { return "things" }
 
-type c06ThingStrategy struct{}
+// c06Names: the three names of a field: of its symbol (last element of the index path), of the key it is stored under,
+// and the one the caller's FieldChecker knows it by
+type c06Names struct{ sym, key, chk string }
+
+type c06Schema struct{ name, alias, roles, colour c06Names }
+
+var c06Schemas = map[string]*c06Schema{
+	"h": {name: c06Names{"name", "name", "name"}, alias: c06Names{"alias", "alias", "alias"},
+		roles: c06Names{"roles", "roles", "roles"}, colour: c06Names{"colour", "colour", "colour"}},
+	"h1": {name: c06Names{"title", "nm", "displayName"}, alias: c06Names{"nick", "aka", "alias"},
+		roles: c06Names{"roles", "roles", "roleAttributes"}, colour: c06Names{"colour", "colour", "tint"}},
+}
+
+func c06Overrides(ctx *boltz.PersistContext, ns ...c06Names) {
+	overrides := map[string]string{}
+	for _, n := range ns {
+		if n.chk != n.key {
+			overrides[n.key] = n.chk
+		}
+	}
+	if len(overrides) > 0 {
+		ctx.WithFieldOverrides(overrides)
+	}
+}
+
+type c06ThingStrategy struct{ sch *c06Schema }
 
 func (c06ThingStrategy) NewEntity() *c06Thing { return &c06Thing{} }
-func (c06ThingStrategy) FillEntity(e *c06Thing, b *boltz.TypedBucket) {
-	e.Name = b.GetStringWithDefault("name", "")
-	e.Alias = b.GetString("alias")
-	e.Roles = b.GetStringList("roles")
+func (s c06ThingStrategy) FillEntity(e *c06Thing, b *boltz.TypedBucket) {
+	e.Name = b.GetStringWithDefault(s.sch.name.key, "")
+	e.Alias = b.GetString(s.sch.alias.key)
+	e.Roles = b.GetStringList(s.sch.roles.key)
 	e.Owner = b.GetString("owner")
 	e.Dep = b.GetString("dep")
 	e.Boss = b.GetString("boss")
 	e.Groups = b.GetStringList("groups")
 }
-func (c06ThingStrategy) PersistEntity(e *c06Thing, ctx *boltz.PersistContext) {
-	ctx.SetString("name", e.Name)
-	ctx.SetStringP("alias", e.Alias)
-	ctx.SetStringList("roles", e.Roles)
+func (s c06ThingStrategy) PersistEntity(e *c06Thing, ctx *boltz.PersistContext) {
+	c06Overrides(ctx, s.sch.name, s.sch.alias, s.sch.roles)
+	ctx.SetString(s.sch.name.key, e.Name)
+	ctx.SetStringP(s.sch.alias.key, e.Alias)
+	ctx.SetStringList(s.sch.roles.key, e.Roles)
 	ctx.SetStringP("owner", e.Owner)
 	ctx.SetStringP("dep", e.Dep)
 	ctx.SetStringP("boss", e.Boss)
@@ -119,17 +153,21 @@ type c06Ext2 struct {
 	Colour string
 }
 
-type c06Ext2Strategy struct{ parent *boltz.BaseStore[*c06Thing] }
+type c06Ext2Strategy struct {
+	sch    *c06Schema
+	parent *boltz.BaseStore[*c06Thing]
+}
 
 func (s *c06Ext2Strategy) NewEntity() *c06Ext2 { return &c06Ext2{} }
 func (s *c06Ext2Strategy) FillEntity(e *c06Ext2, b *boltz.TypedBucket) {
 	_, err := s.parent.LoadEntity(b.Tx(), e.Id, &e.c06Thing)
 	b.SetError(err)
-	e.Colour = b.GetStringWithDefault("colour", "")
+	e.Colour = b.GetStringWithDefault(s.sch.colour.key, "")
 }
 func (s *c06Ext2Strategy) PersistEntity(e *c06Ext2, ctx *boltz.PersistContext) {
 	s.parent.GetEntityStrategy().PersistEntity(&e.c06Thing, ctx.GetParentContext())
-	ctx.SetString("colour", e.Colour)
+	c06Overrides(ctx, s.sch.colour)
+	ctx.SetString(s.sch.colour.key, e.Colour)
 }
 
 type c06Owner struct {
@@ -150,6 +188,7 @@ func (c06OwnerStrategy) PersistEntity(e *c06Owner, ctx *boltz.PersistContext) {
 }
 
 type c06Stores struct {
+	sch    *c06Schema
 	things *boltz.BaseStore[*c06Thing]
 	ext    *boltz.BaseStore[*c06Ext]
 	ext2   *boltz.BaseStore[*c06Ext2]
@@ -159,12 +198,13 @@ type c06Stores struct {
 	idxRoles                             boltz.SetReadIndex
 	groups, members                      boltz.LinkCollection
 	rcAB                                 boltz.RefCountedLinkCollection
+	peers, mentors                       boltz.LinkCollection
 }
 
-func c06Wire() *c06Stores {
-	s := &c06Stores{}
+func c06Wire(sch *c06Schema) *c06Stores {
+	s := &c06Stores{sch: sch}
 	s.things = boltz.NewBaseStore(boltz.StoreDefinition[*c06Thing]{
-		EntityType: "things", EntityStrategy: c06ThingStrategy{}, BasePath: []string{"u"},
+		EntityType: "things", EntityStrategy: c06ThingStrategy{sch: sch}, BasePath: []string{"u"},
 		EntityNotFoundF: func(id string) error { return boltz.NewNotFoundError("thing", "id", id) },
 	})
 	s.things.InitImpl(s.things)
@@ -185,7 +225,7 @@ func c06Wire() *c06Stores {
 	})
 	s.ext.InitImpl(s.ext)
 	s.ext2 = boltz.NewBaseStore(boltz.StoreDefinition[*c06Ext2]{
-		EntityStrategy: &c06Ext2Strategy{parent: s.things}, BasePath: []string{"ext2"}, Parent: s.things,
+		EntityStrategy: &c06Ext2Strategy{sch: sch, parent: s.things}, BasePath: []string{"ext2"}, Parent: s.things,
 		ParentMapper: func(e boltz.Entity) boltz.Entity {
 			if x, ok := e.(*c06Ext2); ok {
 				return &x.c06Thing
@@ -216,11 +256,11 @@ func c06Wire() *c06Stores {
 	// the self reference comes first: fk constraint, then (same store) its cascading delete constraint
 	symBoss := s.things.AddFkSymbol("boss", s.things)
 	s.things.AddFkConstraint(symBoss, true, boltz.CascadeDelete)
-	symName := s.things.AddSymbol("name", ast.NodeTypeString)
+	symName := s.things.AddSymbolWithKey(sch.name.sym, ast.NodeTypeString, sch.name.key)
 	s.idxName = s.things.AddUniqueIndex(symName)
-	symAlias := s.things.AddSymbol("alias", ast.NodeTypeString)
+	symAlias := s.things.AddSymbolWithKey(sch.alias.sym, ast.NodeTypeString, sch.alias.key)
 	s.idxAlias = s.things.AddNullableUniqueIndex(symAlias)
-	symRoles := s.things.AddSetSymbol("roles", ast.NodeTypeString)
+	symRoles := s.things.AddSetSymbol(sch.roles.sym, ast.NodeTypeString)
 	s.idxRoles = s.things.AddSetIndex(symRoles)
 	symOwner := s.things.AddFkSymbol("owner", s.owners)
 	s.things.AddNullableFkIndex(symOwner, symThings)
@@ -234,6 +274,14 @@ func c06Wire() *c06Stores {
 	s.rcAB = s.things.AddRefCountedLinkCollection(symRcB, symRcA)
 	s.owners.AddRefCountedLinkCollection(symRcA, symRcB)
 
+	// store A linked with itself: through one symbol, and through two
+	symPeers := s.things.AddFkSetSymbol("peers", s.things)
+	s.peers = s.things.AddLinkCollection(symPeers, symPeers)
+	symMentors := s.things.AddFkSetSymbol("mentors", s.things)
+	symMentees := s.things.AddFkSetSymbol("mentees", s.things)
+	s.mentors = s.things.AddLinkCollection(symMentors, symMentees)
+	s.things.AddLinkCollection(symMentees, symMentors)
+
 	s.things.GrantSymbols(s.ext)
 	symCode := s.ext.AddSymbol("code", ast.NodeTypeString)
 	s.idxCode = s.ext.AddUniqueIndex(symCode)
@@ -244,7 +292,7 @@ func c06Wire() *c06Stores {
 	s.owners.AddLinkCollection(symPalsOf, symPals)
 
 	s.things.GrantSymbols(s.ext2)
-	symColour := s.ext2.AddSymbol("colour", ast.NodeTypeString)
+	symColour := s.ext2.AddSymbolWithKey(sch.colour.sym, ast.NodeTypeString, sch.colour.key)
 	s.idxColour = s.ext2.AddNullableUniqueIndex(symColour)
 	return s
 }
@@ -308,6 +356,8 @@ func c06ParseOp(s string) c06Op {
 	case "ub":
 		op.label = csParseOpt(f[2])
 		op.chk = f[3]
+	case "pa", "pr", "ps", "ms":
+		op.groups = csParseList(f[2])
 	case "ri", "rd":
 		op.other = fromWire(f[2])
 	case "rs":
@@ -341,6 +391,8 @@ func c06FmtOp(op c06Op) string {
 		return fmt.Sprintf("cb:%s:%s", toWire(op.id), csOpt(op.label))
 	case "ub":
 		return fmt.Sprintf("ub:%s:%s:%s", toWire(op.id), csOpt(op.label), op.chk)
+	case "pa", "pr", "ps", "ms":
+		return fmt.Sprintf("%s:%s:%s", op.kind, toWire(op.id), csList(op.groups))
 	case "ri", "rd":
 		return fmt.Sprintf("%s:%s:%s", op.kind, toWire(op.id), toWire(op.other))
 	case "rs":
@@ -362,7 +414,10 @@ func c06Checker(chk string, names map[byte]string) boltz.FieldChecker {
 	return m
 }
 
-var c06AFields = map[byte]string{'n': "name", 'a': "alias", 'r': "roles", 'o': "owner", 'd': "dep", 'g': "groups", 'b': "boss", 'c': "colour"}
+func (s *c06Stores) aFields() map[byte]string {
+	return map[byte]string{'n': s.sch.name.chk, 'a': s.sch.alias.chk, 'r': s.sch.roles.chk, 'o': "owner", 'd': "dep", 'g': "groups",
+		'b': "boss", 'c': s.sch.colour.chk}
+}
 var c06BFields = map[byte]string{'l': "label"}
 
 func (s *c06Stores) thing(op c06Op) *c06Thing {
@@ -375,7 +430,7 @@ func (s *c06Stores) apply(ctx boltz.MutateContext, op c06Op) error {
 	case "ca":
 		return s.things.Create(ctx, s.thing(op))
 	case "ua":
-		return s.things.Update(ctx, s.thing(op), c06Checker(op.chk, c06AFields))
+		return s.things.Update(ctx, s.thing(op), c06Checker(op.chk, s.aFields()))
 	case "da":
 		return s.things.DeleteById(ctx, op.id)
 	case "cc":
@@ -385,7 +440,7 @@ func (s *c06Stores) apply(ctx boltz.MutateContext, op c06Op) error {
 	case "c2":
 		return s.ext2.Create(ctx, &c06Ext2{c06Thing: *s.thing(op), Colour: op.colour})
 	case "u2":
-		return s.ext2.Update(ctx, &c06Ext2{c06Thing: *s.thing(op), Colour: op.colour}, c06Checker(op.chk, c06AFields))
+		return s.ext2.Update(ctx, &c06Ext2{c06Thing: *s.thing(op), Colour: op.colour}, c06Checker(op.chk, s.aFields()))
 	case "d2":
 		return s.ext2.DeleteById(ctx, op.id)
 	case "cb":
@@ -394,6 +449,14 @@ func (s *c06Stores) apply(ctx boltz.MutateContext, op c06Op) error {
 		return s.owners.Update(ctx, &c06Owner{Id: op.id, Label: op.label}, c06Checker(op.chk, c06BFields))
 	case "db":
 		return s.owners.DeleteById(ctx, op.id)
+	case "pa":
+		return s.peers.AddLinks(ctx.Tx(), op.id, append([]string{}, op.groups...)...)
+	case "pr":
+		return s.peers.RemoveLinks(ctx.Tx(), op.id, append([]string{}, op.groups...)...)
+	case "ps":
+		return s.peers.SetLinks(ctx.Tx(), op.id, append([]string{}, op.groups...))
+	case "ms":
+		return s.mentors.SetLinks(ctx.Tx(), op.id, append([]string{}, op.groups...))
 	case "ri":
 		_, err := s.rcAB.IncrementLinkCount(ctx.Tx(), []byte(op.id), []byte(op.other))
 		return err
@@ -427,13 +490,13 @@ func (s *c06Stores) reads(tx *bbolt.Tx, vals []string) string {
 
 func c06Exec(line string) string {
 	f := fields(line)
-	if len(f) != 3 || f[0] != "h" {
+	if len(f) != 3 || c06Schemas[f[0]] == nil {
 		return "bad-case"
 	}
 	vals := csParseList(f[1])
 	d := csOpenDb()
 	defer d.close()
-	s := c06Wire()
+	s := c06Wire(c06Schemas[f[0]])
 	if err := d.db.Update(nil, func(ctx boltz.MutateContext) error {
 		h := &errorz.ErrorHolderImpl{}
 		s.things.InitializeIndexes(ctx.Tx(), h)
@@ -689,6 +752,18 @@ func (sh *c06Shadow) apply(op c06Op) bool {
 		return true
 	case "ri", "rd", "rs":
 		return sh.a[op.id] != nil && sh.b[op.other]
+	case "pa", "ps", "ms", "pr":
+		if sh.a[op.id] == nil {
+			return false
+		}
+		if op.kind != "pr" {
+			for _, k := range op.groups {
+				if sh.a[k] == nil {
+					return false
+				}
+			}
+		}
+		return true
 	}
 	return false
 }
@@ -824,6 +899,19 @@ func c06GenColour(r *rng, sh *c06Shadow, id string) string {
 	return pick(r, pool)
 }
 
+// c06GenSelfLinkOp: keys mostly existing entities, the entity itself included a third of the time
+func c06GenSelfLinkOp(r *rng, sh *c06Shadow, aIds []string) c06Op {
+	liveA := func(id string) bool { return sh.a[id] != nil }
+	op := c06Op{kind: pick(r, []string{"pa", "pa", "ps", "ps", "pr", "ms", "ms"}), id: c06PickId(r, aIds, liveA, true)}
+	for i, n := 0, r.intn(4); i < n; i++ {
+		op.groups = append(op.groups, c06PickId(r, aIds, liveA, !r.chance(1, 25)))
+	}
+	if r.chance(1, 3) {
+		op.groups = append(op.groups, op.id)
+	}
+	return op
+}
+
 func c06GenOp(r *rng, sh *c06Shadow, aIds []string) c06Op {
 	liveA := func(id string) bool { return sh.a[id] != nil }
 	liveB := func(id string) bool { return sh.b[id] }
@@ -856,7 +944,9 @@ func c06GenOp(r *rng, sh *c06Shadow, aIds []string) c06Op {
 		}
 		sh.genAVals(r, &op, aIds)
 		return op
-	case k < 30: // ref-counted link churn: counts of 2 and more are the interesting ones
+	case k >= 24 && k < 30: // links of store A with itself: peers (one symbol) and mentors (two symbols)
+		return c06GenSelfLinkOp(r, sh, aIds)
+	case k < 24: // ref-counted link churn: counts of 2 and more are the interesting ones
 		op := c06Op{kind: "ri", id: c06PickId(r, aIds, liveA, true), other: c06PickId(r, c06BIds, liveB, !r.chance(1, 12))}
 		switch r.intn(6) {
 		case 0:
@@ -957,6 +1047,22 @@ func c06GenHistory(r *rng, nTx int) string {
 				n = len(scripted)
 			}
 		}
+		if scripted == nil && len(sh.a) >= 2 && r.chance(1, 12) {
+			// one transaction: the entity's self-link buckets are written, then the entity is deleted
+			x := c06PickId(r, aIds, func(id string) bool { return sh.a[id] != nil }, true)
+			if sh.a[x] != nil {
+				for i, m := 0, 1+r.intn(2); i < m; i++ {
+					op := c06GenSelfLinkOp(r, sh, aIds)
+					op.id = x
+					if r.chance(1, 2) {
+						op.groups = append(op.groups, x)
+					}
+					scripted = append(scripted, op)
+				}
+				scripted = append(scripted, c06Op{kind: pick(r, []string{"da", "da", "dc", "d2"}), id: x})
+				n = len(scripted)
+			}
+		}
 		for i := 0; i < n; i++ {
 			var op c06Op
 			if scripted != nil {
@@ -1000,7 +1106,7 @@ func c06GenHistory(r *rng, nTx int) string {
 
 func c06Gen(tier string, seed uint64, out *bufio.Writer) {
 	r := newRng(seed)
-	n := 3000
+	n := 2200
 	if tier == "thorough" {
 		n = 20000
 	}
@@ -1009,6 +1115,10 @@ func c06Gen(tier string, seed uint64, out *bufio.Writer) {
 		if tier == "thorough" {
 			nTx = 6 + r.intn(36)
 		}
-		fmt.Fprintf(out, "h %s %s\n", c06ReadVals, c06GenHistory(r, nTx))
+		head := "h"
+		if r.chance(1, 3) {
+			head = "h1" // the naming variant of the schema
+		}
+		fmt.Fprintf(out, "%s %s %s\n", head, c06ReadVals, c06GenHistory(r, nTx))
 	}
 }
